@@ -1,5 +1,120 @@
-//! Verification hook ops for module `machine` (see mod.rs for the protocol).
+//! Verification hook ops: the line state machine, observed after every input line.
+//!
+//! `machine.run <line>...` runs the real `delta()` over the given lines (each a hex field of
+//! raw bytes, without the newline) with the current Config, writing to an in-memory writer.
+//! `StateMachine::consume` calls `observe` after every line (cfg-guarded call site in delta.rs).
+//! Response: `ok <out> <obs>;<obs>;...` where <out> is everything written and each <obs> is
+//! `state,written,buffered,minus,plus,<raw_line>,<line>,commit_re,blame,grep,<submodule>`:
+//! the state name, bytes written so far, bytes in the output buffer, buffered minus/plus
+//! lines, the ingested raw_line / line, and the regex facts about the line that the Lean
+//! model takes as given.
+use std::cell::RefCell;
+use std::io::Write;
 
-pub fn handle(op: &str, _args: &[&str]) -> Result<String, String> {
-    Err(format!("unknown op: machine.{op}"))
+use bytelines::ByteLinesReader;
+
+use super::{config, hex, hexb, unhexb};
+use crate::delta::{State, StateMachine};
+use crate::handlers;
+
+thread_local! {
+    static OUT: RefCell<Vec<u8>> = const { RefCell::new(Vec::new()) };
+    static OBS: RefCell<Vec<String>> = const { RefCell::new(Vec::new()) };
+    static ACTIVE: RefCell<bool> = const { RefCell::new(false) };
+}
+
+struct TlsWriter;
+
+impl Write for TlsWriter {
+    fn write(&mut self, buf: &[u8]) -> std::io::Result<usize> {
+        OUT.with(|o| o.borrow_mut().extend_from_slice(buf));
+        Ok(buf.len())
+    }
+    fn flush(&mut self) -> std::io::Result<()> {
+        Ok(())
+    }
+}
+
+fn state_name(s: &State) -> &'static str {
+    match s {
+        State::CommitMeta => "CommitMeta",
+        State::DiffHeader(_) => "DiffHeader",
+        State::HunkHeader(_, _, _, _) => "HunkHeader",
+        State::HunkZero(_, _) => "HunkZero",
+        State::HunkMinus(_, _) => "HunkMinus",
+        State::HunkPlus(_, _) => "HunkPlus",
+        State::MergeConflict(_, _) => "MergeConflict",
+        State::SubmoduleLog => "SubmoduleLog",
+        State::SubmoduleShort(_) => "SubmoduleShort",
+        State::Blame(_) => "Blame",
+        State::GitShowFile => "GitShowFile",
+        State::Grep(_, _, _, _) => "Grep",
+        State::Unknown => "Unknown",
+        State::HunkZeroWrapped => "HunkZeroWrapped",
+        State::HunkMinusWrapped => "HunkMinusWrapped",
+        State::HunkPlusWrapped => "HunkPlusWrapped",
+    }
+}
+
+/// Called from `StateMachine::consume` after each input line (and once after the tail, with
+/// `at_end`), only when a `machine.run` request is active.
+pub fn observe(sm: &StateMachine, at_end: bool) {
+    if !ACTIVE.with(|a| *a.borrow()) {
+        return;
+    }
+    let written = OUT.with(|o| o.borrow().len());
+    let grep = match handlers::grep::parse_raw_grep_line(&sm.raw_line)
+        .or_else(|| handlers::grep::parse_grep_line(&sm.line))
+    {
+        None => 0,
+        Some(g) if matches!(g.line_type, handlers::grep::LineType::Ignore) => 2,
+        Some(_) => 1,
+    };
+    let blame =
+        handlers::blame::parse_git_blame_line(&sm.line, &sm.config.blame_timestamp_format).is_some();
+    let submodule = handlers::submodule::get_submodule_short_commit(&sm.line)
+        .map(hex)
+        .unwrap_or_else(|| "-".to_string());
+    let obs = format!(
+        "{},{},{},{},{},{},{},{},{},{},{}",
+        if at_end { "End" } else { state_name(&sm.state) },
+        written,
+        sm.painter.output_buffer.len(),
+        sm.painter.minus_lines.len(),
+        sm.painter.plus_lines.len(),
+        hex(&sm.raw_line),
+        hex(&sm.line),
+        sm.config.commit_regex.is_match(&sm.line) as u8,
+        blame as u8,
+        grep,
+        submodule
+    );
+    OBS.with(|o| o.borrow_mut().push(obs));
+}
+
+pub fn handle(op: &str, args: &[&str]) -> Result<String, String> {
+    match op {
+        "run" => {
+            let mut input: Vec<u8> = Vec::new();
+            for a in args {
+                input.extend_from_slice(&unhexb(a)?);
+                input.push(b'\n');
+            }
+            OUT.with(|o| o.borrow_mut().clear());
+            OBS.with(|o| o.borrow_mut().clear());
+            ACTIVE.with(|a| *a.borrow_mut() = true);
+            let mut writer = TlsWriter;
+            let res = crate::delta::delta(
+                std::io::Cursor::new(input).byte_lines(),
+                &mut writer,
+                config(),
+            );
+            ACTIVE.with(|a| *a.borrow_mut() = false);
+            res.map_err(|e| e.to_string())?;
+            let out = OUT.with(|o| hexb(&o.borrow()));
+            let obs = OBS.with(|o| o.borrow().join(";"));
+            Ok(format!("ok {out} {obs}"))
+        }
+        _ => Err(format!("unknown op: machine.{op}")),
+    }
 }
